@@ -154,6 +154,7 @@ CONTRACTS = [IMPLICIT, EXPLICIT, SUPER, TAGMAP_GET, TAGMAP_IN]
 
 # ---- Any.tagMap: only the untagged ANY stands for "whatever comes" ---------------------------------------------------------
 def _tagmap_ctor(ex, presentTypes=None, skipTypes=None, defaultType=None):
+    """constructor of tagmap.TagMap: stores its three arguments (TagMap.__getitem__/__contains__ are under contract)"""
     return Obj('TagMap', {'presentTypes': presentTypes, 'skipTypes': skipTypes, 'defaultType': defaultType}, name='TagMap(..)')
 
 
